@@ -28,6 +28,7 @@ import (
 	"github.com/cenkalti/rain/v2/torrent"
 	"github.com/cenkalti/rain/v2/zzverif/core"
 	"github.com/cenkalti/rain/v2/zzverif/vnet"
+	"github.com/cenkalti/rain/v2/zzverif/vpool"
 	"github.com/cenkalti/rain/v2/zzverif/vrand"
 	metrics "github.com/rcrowley/go-metrics"
 )
@@ -224,6 +225,13 @@ func (w *World) Deliver(ti, idx int) {
 	tor.VerifPost(idx)
 	w.Quiesce()
 	r, ok := tor.VerifCollect()
+	for !ok && vpool.Parked() > 0 {
+		// the handler waits for a goroutine that the lab holds inside bufferpool.Get (e.g. Close of a web
+		// seed downloader waits for its Run): a real Get never blocks, so the hold ends here
+		vpool.ReleaseOne()
+		w.Quiesce()
+		r, ok = tor.VerifCollect()
+	}
 	delete(w.firstReady, fmt.Sprintf("%d/%d", ti, idx))
 	name := w.Names[idx]
 	switch {
@@ -297,6 +305,11 @@ func (w *World) Advance(d time.Duration) {
 				tor.VerifPost(i)
 				w.Quiesce()
 				r, ok := tor.VerifCollect()
+				for !ok && vpool.Parked() > 0 {
+					vpool.ReleaseOne()
+					w.Quiesce()
+					r, ok = tor.VerifCollect()
+				}
 				if !ok {
 					w.Dead = "hang"
 					w.Failf("hang."+w.Names[i], "ticker handler %s did not return", w.Names[i])
@@ -355,7 +368,7 @@ func (w *World) Digest() uint64 {
 	for _, c := range w.Cmds {
 		fmt.Fprintf(h, "|C%s:%v", c.Name, c.IsDone(w))
 	}
-	fmt.Fprintf(h, "|D%d|R%d", len(vnet.W.DialLog()), vrand.Draws)
+	fmt.Fprintf(h, "|D%d|R%d|P%d:%d", len(vnet.W.DialLog()), vrand.Draws, vpool.Parked(), vpool.Reuses)
 	if debugDigest {
 		h0.Write(dbg.Bytes())
 	}
@@ -513,6 +526,7 @@ func Exec(t *testing.T, sc *Scenario, arg json.RawMessage, prefix []int, expect 
 		defer os.RemoveAll(dir)
 		vnet.Reset()
 		vrand.Reset()
+		vpool.Reset()
 		cryptorand.Reader = &detReader{}
 		torrent.VerifResetLoops()
 		w = &World{T: t, Sc: sc, Arg: arg, Dir: dir, Store: NewStore(), Names: torrent.VerifCaseNames(), Counters: map[string]int64{},
@@ -610,6 +624,7 @@ func labelsOf(a []Action) []string {
 // teardown closes the session, driving the loops through their close case.
 func (w *World) teardown() {
 	w.Store.ReleaseAll()
+	vpool.ReleaseAll()
 	for _, t := range w.Trackers {
 		t.mu.Lock()
 		t.Auto = true
